@@ -2,6 +2,7 @@ package keeper
 
 import (
 	"fmt"
+	"math/big"
 
 	errorsmod "cosmossdk.io/errors"
 	"cosmossdk.io/math"
@@ -40,10 +41,30 @@ func (k Keeper) GetExchangedPrice(
 			return nil, rawDenom, err
 		}
 
-		realPrice = price.Mul(rate)
+		if realPrice, err = exchange(price, rate); err != nil {
+			return nil, rawDenom, err
+		}
 	}
 
 	return sdk.NewCoins(sdk.NewCoin(baseDenom, realPrice.TruncateInt())), rawDenom, nil
+}
+
+// maxExchangedBitLen bounds an exchanged price in its 18-decimal representation, so that neither
+// the decimal product nor its integer part leaves the range of the number types
+const maxExchangedBitLen = math.MaxBitLen + math.LegacyDecimalPrecisionBits - 2
+
+// exchange converts a price at the given rate. The rate is whatever the oracle reports and the
+// conversion also runs in the end blocker: a product out of range is an error, never a panic
+func exchange(price, rate math.LegacyDec) (math.LegacyDec, error) {
+	product := new(big.Int).Mul(price.BigInt(), rate.BigInt())
+	product.Quo(product, math.LegacyOneDec().BigInt())
+	if product.BitLen() > maxExchangedBitLen {
+		return math.LegacyDec{}, errorsmod.Wrapf(
+			types.ErrInvalidResponseOutputBody,
+			"price %s exchanged at rate %s is out of range", price, rate,
+		)
+	}
+	return price.Mul(rate), nil
 }
 
 // GetExchangeRate retrieves the exchange rate of the given pair by the oracle module service
